@@ -54,6 +54,8 @@ func pendingUnbondings(st *State, k int) {
 	case 4: // two undelegations from the same validator and denom in one block share the bucket
 		q2 := nd.IntRange("q2", "1", Pow30)
 		InstallUnbonding(st.E, 0, c1, []Entry{{0, 0, q1}, {0, 0, q2}})
+	case 6: // the bucket holds only an entry of the SAME validator in ANOTHER denom: the index key (which contains the denom) does not exist yet
+		InstallUnbonding(st.E, 0, c1, []Entry{{0, 1, q1}})
 	case 5: // the bucket holds only an entry of ANOTHER validator: the index of validator 0 does not exist yet
 		InstallUnbonding(st.E, 0, c1, []Entry{{1, 0, q1}})
 	case 3:
